@@ -175,7 +175,7 @@ func runProp(spec *propSpec, p *Prog, tier, verif string, seed int) (rc int) {
 			rc = 2
 		}
 	}()
-	spec.runAll(c)
+	spec.runAllCross(c, verif)
 	extra := map[string]interface{}{}
 	if tier == "thorough" {
 		if spec.thorough != nil {
@@ -184,7 +184,7 @@ func runProp(spec *propSpec, p *Prog, tier, verif string, seed int) (rc int) {
 		// second build-tag variant: bundle_preserve swaps enableBundlePreserve in pkg/core and cmd
 		p2 := loadProg(p.RepoDir, "bundle_preserve", nil)
 		c2 := newCtx(spec.id, tier, p2)
-		spec.runAll(c2)
+		spec.runAllCross(c2, verif)
 		if spec.thorough != nil {
 			spec.thorough(c2)
 		}
